@@ -7,36 +7,43 @@ from . import mech
 
 PROPS = {
     'C02': {
+        'e3': ['compose_paths', 'path_optimizer'],
         'units': ['paths'],
         'decided': 'path composition used by the cl23 optimiser and NodePath (compose_paths) equals "follow p then q" for all paths >= 1',
         'not_covered': ['CSE', 'de-inlining', 'constant folding', 'fe_opt', 'brief_path_selection_single call-site precondition', 'whole-pipeline equality of builds'],
     },
     'C03': {
+        'e3': ['compose_paths', 'path_optimizer'],
         'units': ['paths', 'casts'],
         'decided': 'classic path arithmetic (compose_paths) and the bigint<->bytes casts the classic compiler stands on, against big-endian / two\'s-complement specs',
         'not_covered': ['do_com_prog (CLVM-hosted compiler)', 'macro expansion', 'classic vs modern agreement'],
     },
     'C04': {
+        'e3': ['compose_paths', 'path_optimizer'],
         'units': ['paths', 'casts'],
         'decided': 'path composition and number<->atom casts used by the classic optimiser, for paths of any width',
         'not_covered': ['constant_optimizer', 'cons_q_a_optimizer', 'children_optimizer', 'path_optimizer reading path atoms (finding F2 candidate)', 'fixpoint loop'],
     },
     'C08': {
+        'e3': ['atom_from_stream'],
         'units': ['ser'],
         'decided': 'length-prefix encoder (atom_size_blob) equals the consensus prefix table; atom decoder (atom_from_stream, Stream::read, int_from_bytes, get_u32) returns exactly what the consensus decoder returns and rejects what it rejects',
         'not_covered': ['op-stack walker of sexp_from_stream / sexp_to_stream iterator (Box<dyn> stack)', 'byte-equality with clvmr rests on a transcribed spec'],
     },
     'C06': {
+        'e3': ['choose_path'],
         'units': ['clvmleaves'],
         'decided': 'the leaves the stepping evaluator re-implements itself: path lookup (choose_path) equals consensus traverse_path incl. path 0; program atoms are read as unsigned paths (path_from_u8, flatten_signed_int, lemma path_of_canonical_atom); truthiness (truthy) equals the consensus nil test in the current integer mode; atom_value',
         'not_covered': ['run_step / run as a whole (bisimulation with run_program)', 'apply_op delegation', 'translate_head + prim_map', 'eval_args', 'combine', 'that run_step calls the verified leaves (call sites are unverified)'],
     },
     'C07': {
+        'e3': ['convert'],
         'units': ['convert', 'hash', 'sexpeq'],
         'decided': 'convert_from_clvm_rs and convert_to_clvm_rs preserve the CLVM value (tree_of) in both integer modes, by induction over the tree; modern and classic sha256tree both equal the CLVM tree hash of that value; SExp equality (equal_to / == / nilp) holds exactly when the CLVM encodings are identical in the current integer mode',
         'not_covered': ['SHA-256 itself (uninterpreted)', 'clvmr allocator (assumed ghost view)', 'Hash impl for SExp', 'consensus tree hash = tree_hash is a transcription'],
     },
     'C15': {
+        'e3': ['srcloc'],
         'units': ['srcloc'],
         'decided': 'Srcloc arithmetic: advance follows the byte (newline, tab stop, other), combine/ext start at the earlier start and never reach beyond the hull of their arguments, add_onto/ending/len/src_location_min/max',
         'not_covered': ['reader state invariant of parse_sexp_step (all stored locations lie in [start, cursor])', 'token extents', 'byte-at-a-time == whole', 'compiler-generated locations'],
